@@ -568,7 +568,9 @@ def gen_history(rng, tier):
         elif r < 19:
             ops.append(('snapshot', s))
         elif r < 27:
-            nm = name(); size = rng.choice([1, 2, 3, 5, 7, -1, -1, 4, -2, 2 ** 31 + 5])
+            # (a dimension beyond 2^31 is legal in CDF-5; a variable over it would make the data mover at a later
+            #  enddef copy exabytes: sizes of accepted dimensions stay small, layout/moving is C03/C06)
+            nm = name(); size = rng.choice([1, 2, 3, 5, 7, -1, -1, 4, -2] + ([2 ** 31 + 5] if fmts[s] < 5 else [6]))
             ops.append(('def_dim', s, nm, size))
             if st.indef and plausible(nm) and nfc_tab(nm) not in [nfc_tab(x) for x in st.dims] and \
                (size >= 1 or size == -1) and size < 2 ** 31:
